@@ -6,7 +6,7 @@ From Coq Require Import List NArith Bool.
 Import ListNotations.
 Require Import ZV.Skel ZV.gen.Skeleton.
 Open Scope N_scope.
-Ltac tvm := timeout 60 (vm_compute; repeat split; reflexivity).
+Ltac tvm := timeout 240 (vm_compute; repeat split; reflexivity).
 
 (* ids (frozen): 1 cleanup, 2 Flush, 3 Sync, 4 Close, 5 persistFooter, 6 mergeToWriter,
    7 persistSegmentBaseToWriter, 8 OpenFile, 10 pool Get, 11 pool Put, 12 freeReconstructedIndexes,
